@@ -175,6 +175,16 @@ def near_misses():
     out["reduce_out_perm_eq"] = red((var("_r0"), var("_1"), var("_0")), {"_r0": (0, 2)}, t2, (3, 3))
     out["reduce_out_perm_eq2"] = red((var("_1"), var("_0"), var("_r0")), {"_r0": (0, 3)}, pt.make_placeholder("t3", (3, 3, 3), F64), (3, 3))
     out["einsum_kj"] = pt.transform.lower_to_index_lambda.to_index_lambda(pt.einsum("ijk->kj", t2))
+    # hand-built / lowered lambdas on which the raiser used to fail with something other than "unknown"
+    out["flat_sum3"] = raw(p.Sum((var("a")[var("_0"), var("_1")], var("b")[var("_0"), var("_1")], var("c")[var("_0"), var("_1")])),
+                           {"a": x, "b": x, "c": x}, (3, 4))
+    out["flat_prod3"] = raw(p.Product((var("a")[var("_0"), var("_1")], var("b")[var("_1")], 2.0)), {"a": x, "b": y}, (3, 4))
+    out["plus_iname"] = raw(var("a")[var("_0"), var("_1")] + var("_0"), {"a": x}, (3, 4))
+    out["outer"] = pt.transform.lower_to_index_lambda.to_index_lambda(pt.einsum("i,j->ij", y, x[:, 0]))
+    out["concat3"] = pt.transform.lower_to_index_lambda.to_index_lambda(pt.concatenate([x, x[:2], x], axis=0))
+    out["reduce_extra_axis"] = red((var("_0"), var("_r0")), {"_r0": (0, 4)}, x, (3, 2))
+    out["reduce_npint_shape"] = pt.sum(pt.make_placeholder("xi", (np.int64(3), np.int64(4)), F64), axis=1)
+    out["full_nan"] = pt.full((2, 3), np.nan)
     return I, out
 
 
@@ -213,14 +223,46 @@ def _apply_hlo(xp, hlo, operand):
 
 
 def raise_job(which: str, names: tuple) -> JobOut:
-    from pytato.raising import index_lambda_to_high_level_op
-    from pytato.diagnostic import UnknownIndexLambdaExpr
     from pv import corpus as C
     I, lams = api_lambdas() if which == "api" else near_misses()
     kinds = {k: __import__("pv.sem.alg", fromlist=["x"]).dtype_kind(v.dtype) for k, v in I.items()} | {"c3": "f", "t3": "f"}
     data = {k: C.default_data(k, tuple(v.shape), v.dtype) for k, v in I.items()}
     data["c3"] = C.default_data("c3", (3,), F64)
     data["t3"] = C.default_data("t3", (3, 3, 3), F64)
+    return _raise(which, lams, names, kinds, data)
+
+
+def gen_raise_job(prog: str, seed: int = 0) -> JobOut:
+    """every node of a generated program, lowered to an index lambda by the real lowering, goes through the raiser:
+    it may be reported as unknown, but whatever is recognised must reproduce the lambda"""
+    import pytato as pt
+    from pytato.transform import TopoSortMapper
+    from pytato.transform.lower_to_index_lambda import to_index_lambda
+    from pv import corpus as C
+    P = {p.name: p for p in C.corpus("thorough", seed)}[prog]
+    data = {n: C.default_data(n, shp, dt, P) for n, shp, dt, _ in P.inputs}
+    try:
+        outs, ins = C.build_pytato(P, data)
+    except Exception as e:  # noqa: BLE001
+        return JobOut(declined=f"program not constructible: {type(e).__name__}: {e}")
+    m = TopoSortMapper()
+    m(pt.transform.deduplicate(pt.make_dict_of_named_arrays(outs)))
+    lams = {}
+    for k, n in enumerate(m.topological_order):
+        if not isinstance(n, pt.Array) or isinstance(n, (pt.array.InputArgumentBase, pt.array.NamedArray)):
+            continue
+        try:
+            il = n if isinstance(n, pt.IndexLambda) else to_index_lambda(n)
+        except Exception:  # noqa: BLE001
+            continue            # (lowering is C02's subject)
+        lams[f"{prog}/{k}:{type(n).__name__}"] = il
+    kinds = C.kinds_of(P)
+    return _raise("gen", lams, tuple(lams), kinds, data)
+
+
+def _raise(which, lams, names, kinds, data) -> JobOut:
+    from pytato.raising import index_lambda_to_high_level_op
+    from pytato.diagnostic import UnknownIndexLambdaExpr
     sides, outputs = [], {}
     for nm in names:
         il = lams[nm]
@@ -263,7 +305,8 @@ def raise_job(which: str, names: tuple) -> JobOut:
             # obligation: the re-applied operation must also have the lambda's floating/complex dtype (integer- and
             # bool-valued results are compared by value only: pytato stores isnan/logical results as integers)
             dt_il, dt_op = np.dtype(il.dtype), fb.dtype
-            if dt_il.kind in "fc" or dt_op.kind in "fc":
+            from pytato.raising import ZerosLikeOp
+            if (dt_il.kind in "fc" or dt_op.kind in "fc") and not isinstance(hlo, ZerosLikeOp):     # (0 is 0 in every dtype)
                 sides.append(Side(f"{which}/{nm}/re-applied-operation-has-the-lambdas-dtype", dt_il == dt_op,
                                   f"{type(hlo).__name__}: lambda {dt_il}, operation applied to the identified operands {dt_op}"))
         except Exception as e:  # noqa: BLE001
@@ -278,6 +321,7 @@ def raise_job(which: str, names: tuple) -> JobOut:
 
 
 def jobs(tier: str, seed: int):
+    from pv import corpus as C
     _, api = api_lambdas()
     _, nm = near_misses()
     J = []
@@ -287,12 +331,16 @@ def jobs(tier: str, seed: int):
     names = sorted(nm)
     for k in range(0, len(names), 6):
         J.append(Job(MOD, "raise_job", {"which": "near", "names": tuple(names[k:k + 6])}, jid=f"near/{k}", hard_timeout=600))
+    gen = [p_ for p_ in C.corpus(tier, seed) if p_.name.startswith("g2_")]
+    for P in gen:
+        J.append(Job(MOD, "gen_raise_job", {"prog": P.name, "seed": seed}, jid=f"gen/{P.name}", hard_timeout=900))
     meta = {
-        "programs": len(api) + len(nm),
+        "programs": len(api) + len(nm) + len(gen),
         "explanation": "Translation validation of index_lambda_to_high_level_op: the real raiser runs on each index lambda; "
                        "a recognised operation is applied with NumPy semantics to the identified operands and compared "
                        "at a symbolic index over uninterpreted inputs with the lambda's pointwise meaning (CrossHair/z3).",
         "bounds": {"API-produced index lambdas": len(api), "hand-built near-misses": len(nm),
+                   "generated programs whose every node is lowered and raised": len(gen),
                    "operand shapes": "fixed (<= 3 axes, length <= 4); inputs and indices: all"},
         "outside": ["index lambdas of other shapes than the listed ones", "integer/bool dtype of the re-applied operation (floating and complex dtypes are compared)"],
     }
